@@ -91,6 +91,11 @@ CLASSES = {
                                          taxa=[1], vrnt=[2], trait=[], dtype="int64"),
     "DenseTaxaTraitMatrix": dict(mod="pybrops.core.mat.DenseTaxaTraitMatrix", ndim=2,
                                  taxa=[0], vrnt=[], trait=[1], dtype="float64"),
+    # breeding values: observed through unscale() (raw values); only the taxa operations that keep raw values
+    # (the in-place append / incorp and concat store standardised operands: C15 findings D23 / D24)
+    "DenseBreedingValueMatrix": dict(mod="pybrops.popgen.bvmat.DenseBreedingValueMatrix", ndim=2,
+                                     taxa=[0], vrnt=[], trait=[1], dtype="float64", bv=True, kinds=["taxa"],
+                                     skip_ops=("append", "incorp", "concat")),
     "DenseSquareTaxaMatrix": dict(mod="pybrops.core.mat.DenseSquareTaxaMatrix", ndim=2,
                                   taxa=[0, 1], vrnt=[], trait=[], dtype="float64"),
     "DenseMolecularCoancestryMatrix": dict(mod="pybrops.popgen.cmat.DenseMolecularCoancestryMatrix", ndim=2,
@@ -127,7 +132,13 @@ def is_square(cname):
 
 
 def kinds_of(cname):
+    """bundles the class has labels for"""
     return [k for k in KINDS if CLASSES[cname][k]]
+
+
+def op_kinds_of(cname):
+    """bundles the generator edits"""
+    return CLASSES[cname].get("kinds") or kinds_of(cname)
 
 
 # ------------------------------------------------------------------------------------------------
@@ -151,6 +162,10 @@ def decode_mat(cname, arr):
     a = numpy.asarray(arr)
     if d["dtype"] == "float64":
         codes = numpy.where(numpy.isnan(a), float(NAN_CODE), a)
+        if d.get("bv"):          # unscale() = scale * stored + location: integral up to rounding
+            if not numpy.all(numpy.abs(codes - numpy.round(codes)) < 1e-6):
+                raise ValueError("unscaled breeding value is not the raw value of any taxon")
+            codes = numpy.round(codes)
         if not numpy.all(codes == numpy.round(codes)):
             raise ValueError("non-integral cell value: data were computed on, not moved")
         a = codes.astype("int64")
@@ -174,7 +189,10 @@ def label_kwargs(cname, st):
 def build(cname, st):
     """state codes -> a fresh object of the real class (group metadata assigned when the state has them)"""
     cls = get_class(cname)
-    obj = cls(render_mat(cname, st["mat"]), **label_kwargs(cname, st))
+    if CLASSES[cname].get("bv"):
+        obj = cls.from_numpy(render_mat(cname, st["mat"]), **label_kwargs(cname, st))
+    else:
+        obj = cls(render_mat(cname, st["mat"]), **label_kwargs(cname, st))
     for k in ("taxa", "vrnt"):
         g = st[k].get("grp") if CLASSES[cname][k] else None
         if g:
@@ -188,7 +206,7 @@ def build(cname, st):
 
 def observe(cname, obj):
     """public state of a real object -> state codes"""
-    st = {"mat": decode_mat(cname, obj.mat)}
+    st = {"mat": decode_mat(cname, obj.unscale() if CLASSES[cname].get("bv") else obj.mat)}
     for k in KINDS:
         if not CLASSES[cname][k]:
             st[k] = {"cols": [None] * len(COLS[k]), "grp": None}
@@ -569,12 +587,13 @@ class Gen:
     def step(self):
         rng = self.rng
         d = self.d
-        k = rng.choice(kinds_of(self.cname))
+        k = rng.choice(op_kinds_of(self.cname))
         n = self.len[k]
         names = ["select", "delete", "remove", "reorder", "sort", "group", "ungroup", "is_grouped", "lexsort",
                  "adjoin", "append", "insert", "incorp", "concat", "group", "sort", "reorder"]
         if k == "trait":
             names = [x for x in names if x not in ("group", "ungroup", "is_grouped")]
+        names = [x for x in names if x not in d.get("skip_ops", ())]
         if is_square(self.cname) and k == "taxa":
             # the single-axis edits of the square classes are a known defect (D14): keep them rare
             names = [x for x in names if x not in ("insert", "incorp", "concat")] * 3 + ["insert", "incorp", "concat"]
@@ -637,6 +656,7 @@ def gen_history(rng, cname=None, nsteps=None, dup=None, tiny=False):
                            ["DenseTaxaVariantMatrix", "DensePhasedTaxaVariantMatrix", "DenseTaxaTraitMatrix",
                             "DenseTaxaTraitMatrix", "DenseSquareTaxaMatrix", "DenseMolecularCoancestryMatrix",
                             "DenseMolecularCoancestryMatrix", "DenseSquareTaxaTraitMatrix", "DenseTaxaMatrix",
+                            "DenseBreedingValueMatrix", "DenseBreedingValueMatrix",
                             "DenseVariantMatrix", "DenseTraitMatrix"])
     g = Gen(rng, cname, dup_labels=(rng.random() < 0.3 if dup is None else dup), tiny=tiny)
     init = g.init_state()
@@ -778,8 +798,8 @@ class C03(Prop):
     N_THOROUGH = 6000
     CORRESPONDENCE = "functional"
     RULE = ("random histories (1-10 steps) of select / delete / insert / adjoin / concat / append / remove / incorp / "
-            "reorder / lexsort / sort / group / ungroup / is_grouped on eleven concrete classes (phased and unphased "
-            "genotype, taxa-variant, taxa-trait, square-taxa, coancestry, square-taxa-trait matrices and the three "
+            "reorder / lexsort / sort / group / ungroup / is_grouped on twelve concrete classes (phased and unphased "
+            "genotype, taxa-variant, taxa-trait, breeding-value (raw values), square-taxa, coancestry, square-taxa-trait matrices and the three "
             "single-axis base classes) plus the three genotyping protocols applied to (un)grouped phased matrices with "
             "and without a variant mask, axis-specific and axis-generic forms (negative axes included), index forms "
             "int / list / ndarray / slice / boolean mask with negative entries, operands passed as objects or as raw "
@@ -802,8 +822,10 @@ class C03(Prop):
                    "(None and str do not compare)",
                    "no axis is emptied completely (shapes go down to a single row / column, as in the quantifier)",
                    "numpy.insert with unsorted index lists or boolean masks is not modelled",
-                   "DenseBreedingValueMatrix (re-scales on every edit: C15) is not driven by this check; "
-                   "DenseCoancestryMatrix is abstract and is exercised through DenseMolecularCoancestryMatrix",
+                   "DenseBreedingValueMatrix is driven through its raw values (unscale(), rounded to the integer codes) "
+                   "and only with the taxa operations that keep raw values (in-place append / incorp and concat are C15 "
+                   "findings D23 / D24); DenseCoancestryMatrix is abstract and is exercised through "
+                   "DenseMolecularCoancestryMatrix",
                    "phase-axis operations are outside the property (the phase axis carries no labels)",
                    "single-axis insert / incorp / concat of the square classes (known defect D14) are driven with "
                    "row-shaped operands; the model is exact for those only",
@@ -890,6 +912,19 @@ class C03(Prop):
              "steps": [S(name="incorp", kind="vrnt", raw=True, obj={"list": [1]}, axis=1, alt_axis=-1,
                          operand={"mat": [[[50], [51]], [[60], [61]]], "cols": v9([1, 1], [7, 8], None)}),
                        S(name="group", kind="vrnt", axis=1, alt_axis=1)]},
+            # breeding values (raw values through unscale): select, integer insert, adjoin of a matrix, group, remove
+            {"kind": "hist", "cls": "DenseBreedingValueMatrix",
+             "init": {"mat": [[[1], [20]], [[3], [40]], [[5], [60]]], "taxa": {"cols": [[0, 1, 2], [2, 1, 2]], "grp": None},
+                      "vrnt": empty_bundle("vrnt"), "trait": {"cols": [[7, 3]], "grp": None}},
+             "steps": [S(name="select", kind="taxa", indices=[2, 0, 1]),
+                       S(name="insert", kind="taxa", obj={"int": 1}, raw=True,
+                         operand={"mat": [[[7], [8]]], "cols": [[9], [3]]}),
+                       S(name="adjoin", kind="taxa", raw=False, generic=True, axis=-2, alt_axis=-2,
+                         operand={"mat": [[[9], [10]], [[11], [12]]], "cols": [[10, 11], [1, 1]]}),
+                       S(name="group", kind="taxa"),
+                       S(name="remove", kind="taxa", obj={"slice": [None, 2, None]}),
+                       S(name="sort", kind="taxa", keys=None),
+                       S(name="delete", kind="taxa", obj={"mask": [True, False, False, False]})]},
             # D14: square classes edit one of the two taxa axes only
             {"kind": "hist", "cls": "DenseMolecularCoancestryMatrix", "init": sq, "finding": "D14",
              "steps": [S(name="incorp", kind="taxa", obj={"list": [1]},
@@ -1374,7 +1409,19 @@ class C03(Prop):
                 taxa = numpy.empty(values.shape[0], dtype="object")      # sized by axis 0, not by the taxa axis
             DenseTaxaMatrix_append_taxa(self, values, taxa=taxa, taxa_grp=taxa_grp, **kwargs)
 
+        from pybrops.popgen.bvmat.DenseBreedingValueMatrix import DenseBreedingValueMatrix
+
+        def bv_delete_taxa_stored_values(self, obj, **kwargs):
+            # builds the new matrix from the stored (standardised) values instead of unscale()
+            return self.__class__.from_numpy(
+                numpy.delete(self.mat, obj, axis=self.taxa_axis),
+                taxa=None if self.taxa is None else numpy.delete(self.taxa, obj, axis=0),
+                taxa_grp=None if self.taxa_grp is None else numpy.delete(self.taxa_grp, obj, axis=0),
+                trait=self.trait, **kwargs)
+
         return [
+            ("breeding_value_delete_taxa_from_stored_values",
+             lambda: patch(DenseBreedingValueMatrix, "delete_taxa", bv_delete_taxa_stored_values)),
             ("masked_genotyping_invert_metadata_from_wrong_mask",
              lambda: patch(DenseMaskedPhasedGenotyping, "genotype", gt_invert_wrong_mask)),
             ("group_vrnt_skips_sort_when_flagged_grouped_after_reorder",
